@@ -132,12 +132,14 @@ def rerun(names, tier="quick", only_target=False):
         print(name)
         props = [meta["breaks_property"]] if only_target else ALL_CHECKS
         res = run_checks(props, tier)
-        key = "checks_%s" % tier
+        # runs at another VERIF_SEED are kept side by side (a catch must not depend on the seed)
+        sd = os.environ.get("VERIF_SEED", "1")
+        key = "checks_%s" % tier if sd == "1" else "checks_%s_seed%s" % (tier, sd)
         meta.setdefault(key, {}).update(res)
         meta["caught_by"] = sorted(p for p, c in meta["checks_quick"].items() if c["exit"] == 1)
         json.dump(meta, open(os.path.join(d, "meta.json"), "w"), indent=1)
         sh("git -C %s checkout -- .; git -C %s clean -fdq -e target -e Cargo.lock" % (SCRATCH, SCRATCH))
-        print("   => caught by:", meta["caught_by"])
+        print("   => caught by:", meta["caught_by"], "| this run (seed %s):" % sd, sorted(p for p, c in res.items() if c["exit"] == 1))
 
 if __name__ == "__main__":
     if sys.argv[1] == "confirm":
